@@ -324,13 +324,14 @@ func shapeOf(n *nbtNode, skipFirst bool) *goType {
 	case 6:
 		return &goType{K: "f64"}
 	case 7:
-		return &goType{K: "slice", E: &goType{K: []string{"u8", "i8", "u8"}[shapeVariant%3]}}
+		return &goType{K: "slice", E: &goType{K: []string{"u8", "i8", "u8", "u8"}[shapeVariant%4]}}
 	case 8:
 		return &goType{K: "str"}
 	case 11:
-		return &goType{K: "slice", E: &goType{K: []string{"i32", "u32", "u32"}[shapeVariant%3]}}
+		// variant 3: []int (the platform's 64-bit integer) as destination of 32-bit elements
+		return &goType{K: "slice", E: &goType{K: []string{"i32", "u32", "u32", "i32"}[shapeVariant%4], GoInt: shapeVariant%4 == 3}}
 	case 12:
-		return &goType{K: "slice", E: &goType{K: []string{"i64", "u64", "i64"}[shapeVariant%3]}}
+		return &goType{K: "slice", E: &goType{K: []string{"i64", "u64", "i64", "u64"}[shapeVariant%4]}}
 	case 9:
 		if len(n.Lst) == 0 {
 			return &goType{K: "slice", E: &goType{K: "str"}}
@@ -776,7 +777,7 @@ func nbtDecodeAll(tr *vk.Trace, fmtName string, doc []byte, tree *nbtNode, class
 			if skipFirst && (tree.T != 10 || len(tree.Ent) < 2) {
 				continue
 			}
-			shapeVariant = rng.Intn(3)
+			shapeVariant = rng.Intn(4)
 			t := shapeOf(tree, skipFirst)
 			shapeVariant = 0
 			if t != nil {
@@ -818,7 +819,7 @@ func nbtSpecRun(env *vk.Env) []nbtVec {
 
 func nbtRule(env *vk.Env) {
 	env.Cov.Rule = "S: TLC checks EncDoc against the independently written DecDoc on a bounded universe of documents (all 12 tags, empty lists of every element type, lists of lists/arrays/compounds, extreme values, odd keys) x {file, network}: round trip with junk behind, every strict prefix fails. A: each universe document is fed (with trailing bytes) to the real decode entry points; B: random deep documents, random Go values of generated type expressions, mutated documents. Every recorded call is judged by NBT_Trace (DecDoc / EncodeGo evaluated by TLC). Distinct/non-trivial = distinct (kind, target/type class, root tag or mutation class) combinations."
-	env.Assume = []string{"string bytes are opaque (modified UTF-8 validity is not part of the property)", "empty-list element types are not observable after decoding into Go values and are compared loosely there (byte-exact carriers check them)", "interface-typed values are the dynamic types the decoder itself produces (int8..int64, float32/64, string, []byte, []int32, []int64, homogeneous []any, map[string]any) and are compared by dynamic type and value", "signalling float32 NaN patterns are not generated: Go's float32<->float64 conversions (reflect SetFloat/Float, used by the library for typed destinations and by the harness projection) set the quiet bit; all other NaN payloads are compared bit for bit", "declared lengths in generated hostile inputs are capped at 2^24", "struct fields that another field of the same name hides (embedding; the encoding/json rule, decided by NBTMap.tla's Dominant) hold their zero value: a hidden field is not encoded, so only its zero value can come back from a round trip"}
+	env.Assume = []string{"string bytes are opaque (modified UTF-8 validity is not part of the property)", "empty-list element types are not observable after decoding into Go values and are compared loosely there (byte-exact carriers check them)", "interface-typed values are the dynamic types the decoder itself produces (int8..int64, float32/64, string, []byte, []int32, []int64, homogeneous []any, map[string]any) and are compared by dynamic type and value", "signalling float32 NaN patterns are not generated: Go's float32<->float64 conversions (reflect SetFloat/Float, used by the library for typed destinations and by the harness projection) set the quiet bit; all other NaN payloads are compared bit for bit", "declared lengths in generated hostile inputs are capped at 2^24", "typed destinations of the platform's int type: []int for TagIntArray only ([]uint, and []int for TagLongArray, are refused by the library with an error - not generated)", "struct fields that another field of the same name hides (embedding; the encoding/json rule, decided by NBTMap.tla's Dominant) hold their zero value: a hidden field is not encoded, so only its zero value can come back from a round trip"}
 }
 
 func runC01(env *vk.Env) {
